@@ -113,6 +113,12 @@ class ErrorModel(object):
             em = withoff(em, 0.06 * k)
         return (el, et, em, er)
 
+    def scale_tracking(self, k):
+        """multiply both tracking blocks (Et, Er) by k: the same network seen through k^2 of loss
+        (raw measurements of the signal paths scale with k^2, directivity / leakage do not)"""
+        self.cols = [[(el, [[z * k for z in row] for row in et], em, [[z * k for z in row] for row in er])
+                      for (el, et, em, er) in blocks] for blocks in self.cols]
+
     def measure(self, s, f):
         """n x n measurement of a device with scattering matrix s at frequency index f"""
         n = self.n
@@ -552,13 +558,15 @@ def quantise(z, bits):
     return complex(round(z.real * k) / k, round(z.imag * k) / k)
 
 
-def build_trl(rng, sid, typ, nf=2, gfrac=0.6, swap=False, quant=None):
+def build_trl(rng, sid, typ, nf=2, gfrac=0.6, swap=False, quant=None, tracking_scale=None):
     """2-port through / reflect / line with unknown reflect and line; guesses on the right side
     of the root choice (closer to the truth than to -r, resp. 1/l, by the factor gfrac).
     quant = number of fractional bits kept in the measurements and guesses (for exact-rational
     evaluation of the model on the same numbers)."""
     freqs = default_freqs(nf)
     em = ErrorModel(rng, typ, 2, nf)
+    if tracking_scale is not None:
+        em.scale_tracking(tracking_scale)
     sc = Scenario(sid, typ, 2, freqs)
     sc.em = em
     rt, lt, rg, lg = [], [], [], []
@@ -594,7 +602,8 @@ def build_trl(rng, sid, typ, nf=2, gfrac=0.6, swap=False, quant=None):
             ln = sc.unknown(lt, lg, "l")
             sc.trl_meas["L"] = meas(lambda f: [[0, lt[f]], [lt[f], 0]])
             sc.add_line(["match", ln, ln, "match"], 1, 2, sc.trl_meas["L"])
-    sc.meta.update({"type": typ, "family": "trl", "order": "".join(items), "quant": quant})
+    sc.meta.update({"type": typ, "family": "trl", "order": "".join(items), "quant": quant,
+                    "tracking_scale": tracking_scale})
     return sc
 
 
@@ -1125,3 +1134,30 @@ def guard_compare(ctx, wb, drv, sc):
     ok = mr[:2] == ["vrestore", "ok"] and mr[2:] == got_r
     res["restore"] = (ok, "" if ok else "%s: V matrices after restore_v_matrices %s, model %s" % (sc.sid, got_r, mr[1:]))
     return res
+
+
+def build_rectangular_unknowns(rng, sid, typ, mr, mc):
+    """A calibration whose measurement matrix is not square (T types 1x2, U / E types 2x1): the
+    standards still have ports x ports S matrices; unknown parameters sit in cells outside the
+    leading mr x mc block (S12, S21, S22).  Only the add calls matter (used for the white-box walk
+    of the solve state), the measured values are those of a square network cut to mr x mc."""
+    nf, n = 1, 2
+    em = ErrorModel(rng, "T8" if typ[0] == "T" else "U8", n, nf)
+    sc = Scenario(sid, typ, n, default_freqs(nf))
+    sc.lines[1] = "cal %s %d %d %d %s" % (typ, mr, mc, nf, " ".join(fnum(f) for f in sc.freqs))
+    sc.em = em
+
+    def cut(m):
+        return [[m[i][j] for j in range(mc)] for i in range(mr)]
+    l = crand(rng, 0.5, 0.9)
+    r = crand(rng, 0.4, 0.9)
+    l2 = crand(rng, 0.5, 0.9)
+    ln = sc.unknown([l], [l * 1.02], "l")
+    rn = sc.unknown([r], [r * 1.02], "r")
+    l2n = sc.unknown([l2], [l2 * 1.02], "l2")
+    sc.add_through(1, 2, [cut(em.measure([[0, 1], [1, 0]], 0))])
+    sc.add_line(["match", ln, ln, "match"], 1, 2, [cut(em.measure([[0, l], [l, 0]], 0))])
+    sc.add_double(rn, rn, 1, 2, [cut(em.measure([[r, 0], [0, r]], 0))])
+    sc.add_line([sc.known([0.1]), ln, l2n, rn], 1, 2, [cut(em.measure([[0.1, l], [l2, r]], 0))])
+    sc.meta.update({"family": "rectangular_unknowns", "type": typ, "mr": mr, "mc": mc})
+    return sc
